@@ -330,6 +330,14 @@ def run(rep, tier, seed):
     idx = pri + rest
     seeds = [((seed * 7919 + 104729 * k) % 4294967295) + 1 for k in range(K)]
     jobs = [(i, sd) for i in idx for sd in seeds]
+    # the delay-model cases too: string hashes must not leak into delays
+    nd = len(dcs) if tier == "thorough" else 4
+    didx = list(range(0, len(dcs), max(1, len(dcs) // nd)))[:nd]
+    base_n = len(cs)
+    cs = cs + [dcs[i] for i in didx]
+    full_by_case = full_by_case + [dres[i][1] for i in didx]
+    jobs += [(base_n + k, sd) for k in range(len(didx))
+             for sd in seeds[:3 if tier != "thorough" else 8]]
 
     def child(j, job):
         i, sd = job
@@ -354,8 +362,9 @@ def run(rep, tier, seed):
             sc, case = cs[i]
             keys = [k for k in want if want.get(k) != out.get(k)]
             rep.violation("C10.same-across-processes",
-                          "process-with-other-hash-seed-differs:%s"
-                          % case["alg"]["kind"],
+                          "process-with-other-hash-seed-differs:%s%s"
+                          % (case["alg"]["kind"],
+                             ":delay-model" if case.get("delay") else ""),
                           {"engine": "E1", "case": case, "hashseed": sd},
                           {"differs_in": keys}, sc)
     rep.traces_validated = nproc
@@ -379,6 +388,8 @@ def replay(payload):
     vs = []
     if payload.get("hashseed"):
         ident = dict(zip(keys, range(n)))
+        if case.get("delay"):
+            ident = None
         want = full_out(case, ident)
         env = dict(os.environ)
         env["PYTHONHASHSEED"] = str(payload["hashseed"])
@@ -388,8 +399,10 @@ def replay(payload):
         out = json.loads(pr.stdout)["outs"][0]
         if out != want:
             vs.append(("C10.same-across-processes",
-                       "process-with-other-hash-seed-differs:%s"
-                       % case["alg"]["kind"], None))
+                       "process-with-other-hash-seed-differs:%s%s"
+                       % (case["alg"]["kind"],
+                          ":delay-model" if case.get("delay") else ""),
+                       None))
         return [{"clause": a, "cause": b, "detail": c} for a, b, c in vs]
     sigs = {}
     base = None
